@@ -47,4 +47,7 @@ def run(rep, fb, tier):
     _pb2.rule_py_layout_attrs(rep)
     from ..rules import pyrules as _pr5
     _pr5.rule_py_call_shape(rep)
+    from ..rules import pyrules as _pr6, pybind as _pb6
+    _pr6.rule_py_behaviorof_args(rep)
+    _pb6.rule_py_record_methods(rep)
     rep.units = fb.units
